@@ -221,10 +221,15 @@ class SpecProblem(Problem):
         return self._deliver("obj_grad", x.tobytes(), lambda: self._obj_grad(x), False)
 
     def cons(self, x):
+        if self.spec.m == 0:
+            # a user without constraints does not implement the constraint callbacks
+            raise NotImplementedError()
         x = np.array(x, dtype=float)
         return self._deliver("cons", x.tobytes(), lambda: self._cons(x), False)
 
     def cons_jac(self, x):
+        if self.spec.m == 0:
+            raise NotImplementedError()
         x = np.array(x, dtype=float)
         const = not self.spec.nonlinear_cons
         return self._deliver(
